@@ -223,6 +223,14 @@ theorem assignIncident_idpt (verts : List (Nat × Option DPt)) (cells : List Cel
   rintro ⟨id, pt⟩ _
   rfl
 
+theorem assignIncident_ids (verts : List (Nat × Option DPt)) (cells : List Cell) :
+    (assignIncident verts cells).map (·.id) = verts.map (·.1) := by
+  unfold assignIncident
+  rw [List.map_map]
+  apply List.map_congr_left
+  rintro ⟨id, pt⟩ _
+  rfl
+
 theorem mem_assignIncident {verts : List (Nat × Option DPt)} {cells : List Cell} {v : Vtx}
     (h : v ∈ assignIncident verts cells) : (v.id, v.pt) ∈ verts := by
   have := List.mem_map_of_mem (f := fun v : Vtx => (v.id, v.pt)) h
@@ -258,15 +266,33 @@ def tableRows (doc : Doc) : Option (List (Nat × List Nat)) :=
 def rowsKnown (doc : Doc) (cvs : List (Nat × List Nat)) : Bool :=
   cvs.all (fun (_, vs) => vs.all (fun v => doc.verts.any (·.1 == v)))
 
+/-- the vertex records carry pairwise distinct uuids -/
+def vertIdsNodup (doc : Doc) : Bool := decide (doc.verts.map (·.1)).Nodup
+
+theorem vertIdsNodup_iff (doc : Doc) : vertIdsNodup doc = true ↔ (doc.verts.map (·.1)).Nodup := by
+  unfold vertIdsNodup
+  exact decide_eq_true_iff
+
+/-- two vertex records with the same uuid: `decode` rejects, whatever the rest of the document -/
+theorem decode_eq_none_of_dup (doc : Doc) (h : ¬ (doc.verts.map (·.1)).Nodup) :
+    decode doc = none := by
+  unfold decode
+  rw [decide_eq_false h]
+  rfl
+
 theorem decode_eq (doc : Doc) :
     decode doc =
+      if !(vertIdsNodup doc) then none else
       match tableRows doc with
       | none => none
       | some cvs =>
         if rowsKnown doc cvs && facetLe2 (rawCx doc.D cvs) && checkL1 (builtCx doc cvs) &&
             noDupCells (builtCx doc cvs)
         then some (builtCx doc cvs) else none := by
-  unfold decode tableRows
+  unfold decode tableRows vertIdsNodup
+  cases decide (doc.verts.map (·.1)).Nodup
+  · rfl
+  simp only [Bool.not_true, Bool.false_eq_true, if_false]
   generalize (List.mapM (m := Option) _ doc.cells) = o
   cases o with
   | none => rfl
@@ -291,10 +317,14 @@ theorem decode_eq (doc : Doc) :
 
 theorem decode_eq_some_iff (doc : Doc) (K : Cx) :
     decode doc = some K ↔
+      (doc.verts.map (·.1)).Nodup ∧
       ∃ cvs, tableRows doc = some cvs ∧ rowsKnown doc cvs = true ∧
         facetLe2 (rawCx doc.D cvs) = true ∧ checkL1 (builtCx doc cvs) = true ∧
         noDupCells (builtCx doc cvs) = true ∧ K = builtCx doc cvs := by
-  rw [decode_eq]
+  rw [decode_eq, ← vertIdsNodup_iff]
+  cases vertIdsNodup doc
+  · simp
+  simp only [Bool.not_true, Bool.false_eq_true, if_false, true_and]
   cases h : tableRows doc with
   | none => simp
   | some cvs =>
